@@ -53,6 +53,17 @@ func runProgM(dt, prog string) string {
 }
 
 func genMaskHistories(tier string, r *rng, emit func(string)) {
+	// a masked view goes back to the pool; the tensors built afterwards ask for masks of their own:
+	// the base tensor's mask must not change
+	for _, base := range []string{"new:rm:2,3:0;setmask:0:011111;slice:0:0.1.0/_;ret:1", "new:rm:2,3:0;setmask:0:010101;slice:0:_/1.3.1;clone:1;ret:1;ret:2",
+		"new:rm:4:0;setmask:0:0110;slice:0:1.3.1;ret:1"} {
+		p := base
+		k := 1 + strings.Count(base, "slice") + strings.Count(base, "clone")
+		for j := 0; j < 6; j++ {
+			p += fmt.Sprintf(";new:rm:3:50;resetmask:%d:%d", k+j, j%2)
+		}
+		emit("progm f64 " + p)
+	}
 	n := 400
 	if tier == "thorough" {
 		n = 6000
